@@ -61,7 +61,29 @@ func main() {
 	instrBlock = func(fn string, list []ast.Stmt) []ast.Stmt {
 		var res []ast.Stmt
 		locked := 0
-		for _, s := range list {
+		// an Unlock without a preceding Lock in this statement list releases a lock that was taken elsewhere (e.g. inside a
+		// closure called earlier): every statement in front of it runs with that lock held and gets no yield point
+		heldUntil := -1
+		depth := 0
+		for i, s := range list {
+			if _, isDefer := s.(*ast.DeferStmt); isDefer {
+				continue
+			}
+			if isLockCall(s, "Lock", "RLock") {
+				depth++
+			} else if isLockCall(s, "Unlock", "RUnlock") {
+				if depth > 0 {
+					depth--
+				} else {
+					heldUntil = i
+				}
+			}
+		}
+		for si, s := range list {
+			if si < heldUntil {
+				res = append(res, s)
+				continue
+			}
 			isUnlock := false
 			if isLockCall(s, "Unlock", "RUnlock") {
 				if _, isDefer := s.(*ast.DeferStmt); !isDefer {
